@@ -207,22 +207,6 @@ def file_cases(rng, files, per_file):
 
 # ----------------------------------------------------------------------------- the oracle
 
-def from_class(line, prefix):
-    """known-finding class `from-branch-nonword`: the text left of the cursor takes assist's `from` branch and what
-    follows its last space/dot contains a non-word character; assist returned exactly that text"""
-    if not (line.lstrip().startswith('from ') and ' import ' not in line):
-        return False
-    tail = line.rpartition(' ')[2].rpartition('.')[2]
-    return re.search(r'\W', tail) is not None and prefix == tail
-
-
-def from_misfire(line):
-    """known-finding class `from-branch-misfire`: the text left of the cursor satisfies assist's from-branch condition
-    although it is already past the `import` keyword of the statement (`import` followed by '(' , a tab, a backslash ...)"""
-    return line.lstrip().startswith('from ') and ' import ' not in line and re.search(r'\simport(?!\w)', line) is not None \
-        and re.search(r'\simport$', line) is None
-
-
 def find_name_node(tree, ln, col):
     for n in ast.walk(tree):
         if isinstance(n, ast.Name) and isinstance(n.ctx, ast.Load) and n.end_lineno == ln and n.end_col_offset == col and n.lineno == ln:
@@ -268,12 +252,15 @@ class Oracle(object):
         """one cursor; res = result of S.assist.  -> line left of the cursor"""
         S, check = self.S, self.check
         ln, col = pos
-        lines = src.splitlines() or ['']
+        lines = textgen.parser_lines(src)
+        if lines and not lines[-1]:
+            lines.pop()
+        lines = lines or ['']
         if ln > len(lines):
-            lines.append('')
+            lines.extend([''] * (ln - len(lines)))
         line = lines[ln - 1][:col]
         replay = {'src': src if len(src) < 100000 else None, 'file': fn if len(src) >= 100000 else None, 'cursor': [ln, col], 'label': label,
-                  'line_left_of_cursor': line[-200:], 'from_branch_misfire': from_misfire(line)}
+                  'line_left_of_cursor': line[-200:]}
         self.count('cursors')
         self.count('outcome:' + res[0] + (':' + res[1] if res[0] == 'err' else ''))
         if res[0] == 'err':
@@ -286,7 +273,7 @@ class Oracle(object):
         # (a) the prefix
         want = re.search(r'\w*$', line).group()
         if prefix != want:
-            replay2 = dict(replay, prefix=prefix, want=want, prefix_is_from_branch_text=from_class(line, prefix))
+            replay2 = dict(replay, prefix=prefix, want=want)
             check.fail('prefix %r is not the identifier characters left of the cursor %r' % (prefix, want), replay2)
         # (b) the proposals
         bad = None
@@ -363,10 +350,10 @@ def word_chars(line):
 
 
 def gen_lines(rng, n):
-    alphabet = list('abfo_19 .,()[]{}=+-*/:;#"\'\t\\@!<>%&|^~') + ['é', 'ß', 'Ω', 'ж', '中', '\u00b2', '\u0660', '\u00b7', '\u2028', '\xa0',
+    alphabet = list('abfo_19 .,()[]{}=+-*/:;#"\'\t\\@!<>%&|^~') + ['é', 'ß', 'Ω', 'ж', '中', '\u00b2', '\u0660', '\u00b7', '\u2028', '\xa0', '\x0b', '\x0c', '\x1c', '\x1f', '\x85', '\u1680', '\u2003', '\u3000', '\u200b', '\ufeff',
                                                                    '\u0301', '\U0001d7d8', '\U0001f600', '_', ' ', '.', 'x']
     heads = ['', 'from ', '  from ', '\tfrom ', 'from os import ', 'from os import(', 'from os.', 'import ', 'x = ', 'from\t', '\xa0from ',
-             'from os import\t', 'fromage ', 'from a.b ', 'from . import ', 'from .']
+             'from os import\t', 'fromage ', 'from a.b ', 'from . import ', 'from .', 'from\xa0', 'from\u2003a.', ' \x0cfrom  ', 'from\x1c..', 'from']
     out = []
     for _ in range(n):
         out.append(rng.choice(heads) + ''.join(rng.choice(alphabet) for _ in range(rng.choice([0, 1, 2, 3, 5, 8, 13]))))
@@ -392,14 +379,7 @@ def gen_marked_names(rng, n):
 
 
 def install_matchers(check):
-    for k in check.known:
-        if k.get('class') == 'from-branch-misfire':
-            # (1) the prefix is the from-branch text (after the last space/dot) and contains a non-word character: exactly the
-            #     case excluded by the hypothesis of C12_from_prefix; (2) the branch is taken past the `import` keyword
-            k['_matcher'] = lambda what, replay: (what.startswith('prefix ') and replay.get('prefix_is_from_branch_text') is True) \
-                or (replay.get('from_branch_misfire') is True
-                    and what.startswith(('cursor at the end of a name read', 'cursor after "expr."')))
-
+    pass        # no open finding of C12 at present
 
 def run(check):
     quick = check.tier == 'quick'
@@ -476,8 +456,9 @@ def run(check):
     for l, r in zip(lines, common.ask_driver(reqs, exe='drv_text')):
         impl_generic = re.split(r'\W', l)[-1]
         impl_spec = re.search(r'\w*$', l).group()
-        is_from = l.lstrip().startswith('from ') and ' import ' not in l
-        impl_from = l.rpartition(' ')[2].rpartition('.')[2]
+        fm = re.match(r'\s*from\s+([\w.]*)$', l)
+        is_from = fm is not None
+        impl_from = fm.group(1).rpartition('.')[2] if fm else None
         mod_full = uncps(r['prefix'])
         ok = uncps(r['generic']) == impl_generic and uncps(r['spec']) == impl_spec and bool(r['branch']) == is_from \
             and mod_full == (impl_from if is_from else impl_generic)
@@ -489,7 +470,7 @@ def run(check):
                              (l, impl_generic, impl_spec, is_from, impl_from, {k: (uncps(v) if isinstance(v, list) else v) for k, v in r.items()}))
     if dis_re == 0:
         check.oblige("correspondence prefix expressions (splitBy/identSuffix/fromBranch/fromPrefix = re.split(r'\\W')[-1], "
-                     "re.search(r'\\w*$'), the from-branch condition and rpartitions, on random lines incl. non-ASCII)", True)
+                     "re.search(r'\\w*$'), the from-branch regex and rpartition, on random lines incl. non-ASCII and every kind of whitespace)", True)
 
     # 3c. correspondence: unmark / marked / split_pkg / join_pkg
     names = gen_marked_names(rng, 1500 if quick else 15000)
@@ -520,9 +501,9 @@ def run(check):
 
     # 3d. correspondence: Source(source, filename, position).source / .lines
     reqs, impl = [], []
-    srcs = ['', 'a', 'ab\ncd', 'ab\ncd\n', '\n', 'a\r\nb', 'x = 1\n\x0cy = 2\n', 'é = 1\nfö', 'a\n\nb'] + [c[0] for c in cases[:40]]
+    srcs = ['', 'a', 'ab\ncd', 'ab\ncd\n', '\n', 'a\r\nb', 'a\rb\r', 'x = 1\n\x0cy = 2\n', 'a\x85b\u2028c\n', 'é = 1\nfö', 'a\n\nb', 'a\n\n'] + [c[0] for c in cases[:40]]
     for src in srcs:
-        nl = len(src.splitlines())
+        nl = len(textgen.parser_lines(src))
         for ln in sorted(set([1, 2, nl, nl + 1, nl + 2, nl + 5, nl + 40, max(1, nl - 1)])):
             for col in (0, 1, 2, 5, 100):
                 try:
@@ -530,15 +511,15 @@ def run(check):
                     impl.append({'ok': s.lines, 'source': s.source})
                 except Exception as e:  # noqa
                     impl.append({'err': type(e).__name__})
-                reqs.append({'op': 'mark', 'lines': [cps(l) for l in src.splitlines()], 'ln': ln, 'col': col})
+                reqs.append({'op': 'mark', 'src': cps(src), 'ln': ln, 'col': col})
     dis_m = 0
     for q, i, r in zip(reqs, impl, common.ask_driver(reqs, exe='drv_text')):
         mod = {'ok': [uncps(x) for x in r['ok']], 'source': uncps(r['source'])} if 'ok' in r else r
         if mod != i:
             dis_m += 1
             if dis_m <= 5:
-                check.oblige('correspondence Source(position)', False, 'lines %r at %r: impl %r, model %r' %
-                             ([uncps(x) for x in q['lines']][:5], (q['ln'], q['col']), short(i), short(mod)))
+                check.oblige('correspondence Source(position)', False, 'text %r at %r: impl %r, model %r' %
+                             (uncps(q['src'])[:80], (q['ln'], q['col']), short(i), short(mod)))
     if dis_m == 0:
         check.oblige('correspondence Source(source, filename, position): marked lines and text (model markLines/joinNl)', True)
 
